@@ -404,6 +404,21 @@ func genC07(t *rapid.T) any {
 		c.Outer = fmt.Sprintf("SELECT %s, %s FROM t WHERE %s (SELECT %s FROM %s WHERE %s)", sc.k, sc.s, kw, sc.p, sc.items, sq.Render(pred, nil))
 		c.InCol = sc.items
 	}
+	if (c.Form == "cte" || c.Form == "derived" || c.Form == "chain") && rapid.IntRange(0, 4).Draw(t, "stray") == 0 {
+		// elements that are not objects among the rows of the table: a query over it sees the objects only, and
+		// so does every query that reads that query's result under a name
+		rows, _ := c.Doc["t"].([]any)
+		pos := rapid.IntRange(0, len(rows)).Draw(t, "stray.pos")
+		odd := rapid.SampledFrom([]any{nil, "stray", 7.0, true}).Draw(t, "stray.value")
+		c.Doc["t"] = append(append(append([]any{}, rows[:pos]...), odd), rows[pos:]...)
+		if c.Form == "derived" && rapid.Bool().Draw(t, "stray.plain") {
+			// the barest derived table: (SELECT * FROM t) x
+			qo, ord := genOuterQuery(t, sc.tb, "x.", "so")
+			c.Composed = fmt.Sprintf(qo, "(SELECT * FROM t) x")
+			c.Stages = []string{"SELECT * FROM t", fmt.Sprintf(qo, "m1 x")}
+			c.Ordered = ord
+		}
+	}
 	if (c.Form == "sel-sub" || c.Form == "in-sub" || c.Form == "exists") && rapid.IntRange(0, 3).Draw(t, "collide") == 0 {
 		// the nested array bears the name of a table of the document (t2) and is missing or NULL in some rows: a
 		// sub query over it reads the row's array or nothing, never the table of the enclosing document
